@@ -225,7 +225,8 @@ def impl_run(case):
                 ri = pick("R", op[3])
                 if q == "lookup":
                     # read-only lookups of outcomes the histogram does not have
-                    for absent in (77, -77, Fraction(1, 3), 77.5):
+                    present = set(h)
+                    for absent in [x for x in (77, -77, Fraction(1, 3), 77.5, Fraction(22, 7)) if x not in present]:
                         if h.get(absent, "D") != "D" or (absent in h) or h.get(absent) is not None:
                             problems.append(f"lookup of an absent outcome answered as if present at step {step}")
                         try:
